@@ -1,28 +1,54 @@
 (* C13 — Lexeme sequences tokenize back to themselves with the right classes.
-   FULL STATEMENT (not proved as one theorem; see DESIGN.md 5.7): for the generic and the expression tokenizer,
-     Forall2 well_formed ls classes -> pairwise cannot_merge ls ->
-     tokenize_with k no_options (concat ls) = Ok (zip classes ls ++ [Eof]).
-   What is proved here (names carry _partial where they are a part of that statement):
-   - the segmentation facts that hold for every input: values concatenate to the input, non-empty (C04), each token
-     is produced by the state its first character is handed to;
-   - the character classes of both lexical grammars, for EVERY character, on the extracted tables (identifiers may
-     start with any configured letter, Latin or not; digits, sign, dot, quotes, comment openers, whitespace);
-   - the longest registered multi-character symbol always wins, with the registered set of the extracted tables;
-   - keywords are exactly the language's ten, recognised in any letter case, with the spelling kept;
-   - a sign is a symbol in expressions and part of the number generically.
-   The sequence-level statement itself is exercised by the correspondence and the direct oracle on generated lexeme
-   sequences of every class (missing as a theorem: "each state stops exactly at the end of its lexeme"). *)
+   FULL STATEMENT, proved (C13_generic_lexemes_roundtrip / C13_expression_lexemes_roundtrip): for the generic and the
+   expression tokenizer, any sequence ls of (class, lexeme) pairs in which every lexeme is well formed for its class and
+   written so that it cannot merge with what follows (LexGrammar.lexeme: the lexical grammar, as a relation between a
+   class, a lexeme and the rest of the input - no cursor, no state machine) is tokenized, with no options, into exactly
+   those lexemes with exactly those classes, followed by the end-of-input token.  Any length, any order.
+   The grammar refers to the configuration for "which state is a character handed to" and "is it a word / whitespace
+   character"; the theorems below say what those are for EVERY character on the tables extracted from the Go
+   constructors on this run (identifiers may start with any configured letter, Latin or not), what the registered
+   multi-character symbols and keywords are, that the longest registered symbol wins, that keywords are recognised in
+   any letter case and keep their spelling, and that a sign is a symbol in expressions and part of the number
+   generically.  Proof (LexStep.v, LexSeq.v): every tokenizer state is run symbolically on "lexeme ++ rest" and shown to
+   return the lexeme and to stop on the first character of the rest; the sequence follows by induction. *)
 From Coq Require Import List ZArith Bool Lia.
 Import ListNotations.
-Require Import Base Cursor Trie TrieSpec TrieLongest States Tokenizer Instances Tables TokModel TokModelProofs LexFacts.
+Require Import Base Cursor Trie TrieSpec TrieLongest States Tokenizer Instances Tables TokModel TokModelProofs LexFacts LexStep LexGrammar LexSeq LexRoundtrip.
 Open Scope Z_scope.
 
-Theorem C13_expression_character_classes_partial : forall c, Instances.table expr_cfg c = expr_class c.
+(* ---- the property ---- *)
+Theorem C13_generic_lexemes_roundtrip : forall ls : list (ttype * Base.str),
+  wf_str (concat (map snd ls)) -> lexemes generic_cfg (regs_of generic_symbols) ls ->
+  exists ts, tokenize_with TGeneric no_options (concat (map snd ls)) = Tokenizer.Ok ts /\
+             map (fun t => (ty t, value t)) ts = ls ++ [(Eof, [])].
+Proof. exact generic_lexemes_roundtrip. Qed.
+Theorem C13_expression_lexemes_roundtrip : forall ls : list (ttype * Base.str),
+  wf_str (concat (map snd ls)) -> lexemes expr_cfg (regs_of expr_symbols) ls ->
+  exists ts, tokenize_with TExpr no_options (concat (map snd ls)) = Tokenizer.Ok ts /\
+             map (fun t => (ty t, value t)) ts = ls ++ [(Eof, [])].
+Proof. exact expr_lexemes_roundtrip. Qed.
+
+(* one lexeme, one token: the state the first character is handed to returns exactly the lexeme and stops on the
+   first character of the rest - for any configuration whose symbols come from registrations *)
+Theorem C13_each_state_stops_at_the_end_of_its_lexeme : forall lc plc cfg regs,
+  symbols cfg = build regs -> Forall valid_reg regs -> Forall (fun r => snd r <> Integer /\ snd r <> Float) regs ->
+  (forall ch, Instances.table cfg ch = Some KCComment -> ch = 47) ->
+  forall t lx rest, lexeme cfg regs t lx rest -> forall l a, wf_str l -> (a <= length l)%nat -> skipn a l = lx ++ rest ->
+  exists r c', produce lc plc cfg Datatypes.tt (cur_at l a) = Some (r, c', Datatypes.tt) /\ ty (rtok r) = t /\ value (rtok r) = lx /\
+               lands c' l (a + length lx) /\ first_char r = hdz lx /\ from_quote r = is_quote_kind (Instances.table cfg (hdz lx)).
+Proof. exact produce_step. Qed.
+
+(* ---- what the configuration-dependent parts of the grammar are, on the extracted tables ---- *)
+Theorem C13_word_characters : (forall c, wordchar generic_cfg c = generic_wordchar_spec c) /\ (forall c, wordchar expr_cfg c = expr_wordchar_spec c) /\
+  (forall c, wschar generic_cfg c = wschar_spec c /\ wschar expr_cfg c = wschar_spec c).
+Proof. exact (conj generic_wordchars_are (conj expr_wordchars_are wschars_are)). Qed.
+
+Theorem C13_expression_character_classes : forall c, Instances.table expr_cfg c = expr_class c.
 Proof. exact expr_dispatch. Qed.
-Theorem C13_generic_character_classes_partial : forall c, Instances.table generic_cfg c = generic_class c.
+Theorem C13_generic_character_classes : forall c, Instances.table generic_cfg c = generic_class c.
 Proof. exact generic_dispatch. Qed.
 
-Theorem C13_expression_longest_symbol_wins_partial : forall s0, wf_str (content s0) -> (p s0 < clen s0)%nat ->
+Theorem C13_expression_longest_symbol_wins : forall s0, wf_str (content s0) -> (p s0 < clen s0)%nat ->
   let regs := regs_of expr_symbols in
   let tok := fst (symbol_next lcf (build regs) s0) in
   let input := skipn (p s0) (content s0) in
@@ -32,7 +58,7 @@ Theorem C13_expression_longest_symbol_wins_partial : forall s0, wf_str (content 
   (forall q, q <> [] -> registered regs q = true -> is_prefix q input = true -> (length q <= length (value tok))%nat) /\
   ty tok = (if registered regs (value tok) then last_type regs (value tok) else Symbol).
 Proof. exact expr_symbol_longest. Qed.
-Theorem C13_generic_longest_symbol_wins_partial : forall s0, wf_str (content s0) -> (p s0 < clen s0)%nat ->
+Theorem C13_generic_longest_symbol_wins : forall s0, wf_str (content s0) -> (p s0 < clen s0)%nat ->
   let regs := regs_of generic_symbols in
   let tok := fst (symbol_next lcf (build regs) s0) in
   let input := skipn (p s0) (content s0) in
@@ -42,30 +68,33 @@ Theorem C13_generic_longest_symbol_wins_partial : forall s0, wf_str (content s0)
   (forall q, q <> [] -> registered regs q = true -> is_prefix q input = true -> (length q <= length (value tok))%nat) /\
   ty tok = (if registered regs (value tok) then last_type regs (value tok) else Symbol).
 Proof. exact generic_symbol_longest. Qed.
-Theorem C13_expression_symbols_are_the_language_partial : forall q, registered (regs_of expr_symbols) q =
+Theorem C13_expression_symbols_are_the_language : forall q, registered (regs_of expr_symbols) q =
   existsb (str_eqb q) [[60; 61]; [62; 61]; [60; 62]; [33; 61]; [62; 62]; [60; 60]].
 Proof. exact expr_symbols_are. Qed.
 
-Theorem C13_keywords_are_the_language_partial :
+Theorem C13_keywords_are_the_language :
   forallb (fun k => existsb (str_eqb k) spec_keywords) keywords = true /\ forallb (fun k => existsb (str_eqb k) keywords) spec_keywords = true.
 Proof. exact keywords_are_the_language. Qed.
-Theorem C13_keywords_any_case_partial : forall s, keyword_in keywords (upper s) = keyword_in keywords s.
+Theorem C13_keywords_any_case : forall s, keyword_in keywords (upper s) = keyword_in keywords s.
 Proof. exact keyword_case_insensitive. Qed.
-Theorem C13_keywords_keep_their_spelling_partial : forall lc plc wc kw s,
+Theorem C13_keywords_keep_their_spelling : forall lc plc wc kw s,
   value (fst (expr_word_next lc plc wc kw s)) = value (fst (word_next lc wc s)) /\
   ty (fst (expr_word_next lc plc wc kw s)) = (if kw (value (fst (word_next lc wc s))) then Keyword else ty (fst (word_next lc wc s))).
 Proof. exact keyword_spelling_kept. Qed.
 
-Theorem C13_sign_is_a_symbol_in_expressions_partial : forall lc plc symbol s, peek s = 45 -> expr_number_next lc plc symbol s = symbol s.
+Theorem C13_sign_is_a_symbol_in_expressions : forall lc plc symbol s, peek s = 45 -> expr_number_next lc plc symbol s = symbol s.
 Proof. exact expr_sign_is_symbol. Qed.
 
 (* segmentation facts for every input (from C04): nothing is lost, every token non-empty *)
-Theorem C13_segmentation_partial : forall (k : tkind) (s : Base.str), wf_str s ->
+Theorem C13_segmentation : forall (k : tkind) (s : Base.str), wf_str s ->
   exists body e, tokenize_with k no_options s = Tokenizer.Ok (body ++ [e]) /\ concat (map value (body ++ [e])) = s /\
                  ty e = Eof /\ value e = [] /\ Forall (fun t => value t <> []) body.
 Proof. exact tokenize_lossless. Qed.
 
-(* non-vacuity: one sequence with every class of the expression grammar *)
+(* non-vacuity: a sequence with every class of the expression grammar meets the premises of the theorem *)
+Example C13_premises_satisfiable : lexemes expr_cfg (regs_of expr_symbols) sample /\ wf_str (concat (map snd sample)).
+Proof. split; [exact sample_is_lexemes|]. unfold wf_str. repeat (constructor; [lia|]). constructor. Qed.
+(* ... and computed directly: *)
 Example C13_nonvacuous :
   exists ts, tokenize_with TExpr no_options
     [120; 49; 60; 61; 49; 46; 53; 69; 43; 51; 32; 110; 79; 116; 39; 97; 39; 39; 98; 39; 47; 42; 99; 42; 47; 45; 55; 233] = Tokenizer.Ok ts /\
@@ -74,13 +103,17 @@ Example C13_nonvacuous :
      (Quoted, [39; 97; 39; 39; 98; 39]); (Comment, [47; 42; 99; 42; 47]); (Symbol, [45]); (Integer, [55]); (Word, [233]); (Eof, [])].
 Proof. eexists. split; vm_compute; reflexivity. Qed.
 
-Print Assumptions C13_expression_character_classes_partial.
-Print Assumptions C13_generic_character_classes_partial.
-Print Assumptions C13_expression_longest_symbol_wins_partial.
-Print Assumptions C13_generic_longest_symbol_wins_partial.
-Print Assumptions C13_expression_symbols_are_the_language_partial.
-Print Assumptions C13_keywords_are_the_language_partial.
-Print Assumptions C13_keywords_any_case_partial.
-Print Assumptions C13_keywords_keep_their_spelling_partial.
-Print Assumptions C13_sign_is_a_symbol_in_expressions_partial.
-Print Assumptions C13_segmentation_partial.
+Print Assumptions C13_generic_lexemes_roundtrip.
+Print Assumptions C13_expression_lexemes_roundtrip.
+Print Assumptions C13_each_state_stops_at_the_end_of_its_lexeme.
+Print Assumptions C13_word_characters.
+Print Assumptions C13_expression_character_classes.
+Print Assumptions C13_generic_character_classes.
+Print Assumptions C13_expression_longest_symbol_wins.
+Print Assumptions C13_generic_longest_symbol_wins.
+Print Assumptions C13_expression_symbols_are_the_language.
+Print Assumptions C13_keywords_are_the_language.
+Print Assumptions C13_keywords_any_case.
+Print Assumptions C13_keywords_keep_their_spelling.
+Print Assumptions C13_sign_is_a_symbol_in_expressions.
+Print Assumptions C13_segmentation.
